@@ -457,8 +457,9 @@ def unstick(cx):
     # (the answer may be built at one site for both types or at one site per type: some site must cover each case)
     for (fl_, ty), ok in sorted(conv.items()):
         cx.check(ok, "converse:%s:%s" % (fl_, ty), "every lower-term %s is answered when %s is on" % (ty, fl_))
-    for t in tmpls(cx, {"MsgRequestPreVoteResponse"}):
-        if t.fn is not step or t.get("reject") != ("bool", True):
+    for t in tmpls(cx, {"MsgRequestPreVoteResponse", "MsgRequestVoteResponse"}):
+        # (the type may be the literal, or vote_resp_msg_type(m.msg_type) under the required guard m.msg_type == MsgRequestPreVote)
+        if t.fn is not step or t.get("reject") != ("bool", True) or "MsgRequestPreVoteResponse" not in (t.types() or ()):
             continue
         g = cx.pg(step)
         def lower(l):
@@ -466,6 +467,10 @@ def unstick(cx):
         if g.guarded(t.site.at, lambda lits: any(lower(l) for l in lits))[0]:
             n2 += 1
             require(cx, t.site, tkey(cx, t, "unstick:prevote"), "a lower-term pre-vote request is rejected explicitly", msg_type_in(m, {"MsgRequestPreVote"}), kill=False)
+            mtv = t.get("msg_type")
+            if mtv[0] == "call":
+                of_req = len(mtv[2]) == 1 and (mtv[2][0] == ("field", m, "Message.msg_type") or (mtv[2][0][0] == "call" and mtv[2][0][1].endswith("get_msg_type") and mtv[2][0][2] and mtv[2][0][2][0] == m))
+                cx.check(of_req, tkey(cx, t, "unstick:type"), "the rejection's type is the response type of the request's own type (found %s)" % show(mtv)[:100], t.site)
             cx.check(is_f(t.get("term"), TERM), tkey(cx, t, "unstick:term"), "the rejection carries the node's own (higher) term", t.site)
             lw = [l for l in cx.guard_lits(t.site) if lower(l)]
             assume = lw + [("in", ("field", m, "Message.msg_type"), frozenset(["MsgRequestPreVote"]), MT), ("notin", ("field", m, "Message.term"), frozenset([0]), None)]
